@@ -57,7 +57,7 @@ func Walk(v Visitor, n Node) {
 			Walk(v, n.Member)
 		}
 	case *BranchStatement:
-		if n != nil {
+		if n != nil && n.Label != nil {
 			Walk(v, n.Label)
 		}
 	case *CallExpression:
@@ -76,7 +76,9 @@ func Walk(v Visitor, n Node) {
 		}
 	case *CatchStatement:
 		if n != nil {
-			Walk(v, n.Parameter)
+			if n.Parameter != nil {
+				Walk(v, n.Parameter)
+			}
 			Walk(v, n.Body)
 		}
 	case *ConditionalExpression:
@@ -94,7 +96,9 @@ func Walk(v Visitor, n Node) {
 	case *DotExpression:
 		if n != nil {
 			Walk(v, n.Left)
-			Walk(v, n.Identifier)
+			if n.Identifier != nil {
+				Walk(v, n.Identifier)
+			}
 		}
 	case *EmptyExpression:
 	case *EmptyStatement:
@@ -117,14 +121,18 @@ func Walk(v Visitor, n Node) {
 		}
 	case *FunctionLiteral:
 		if n != nil {
-			Walk(v, n.Name)
-			for _, p := range n.ParameterList.List {
-				Walk(v, p)
+			if n.Name != nil {
+				Walk(v, n.Name)
+			}
+			if n.ParameterList != nil {
+				for _, p := range n.ParameterList.List {
+					Walk(v, p)
+				}
 			}
 			Walk(v, n.Body)
 		}
 	case *FunctionStatement:
-		if n != nil {
+		if n != nil && n.Function != nil {
 			Walk(v, n.Function)
 		}
 	case *Identifier:
@@ -136,7 +144,9 @@ func Walk(v Visitor, n Node) {
 		}
 	case *LabelledStatement:
 		if n != nil {
-			Walk(v, n.Label)
+			if n.Label != nil {
+				Walk(v, n.Label)
+			}
 			Walk(v, n.Statement)
 		}
 	case *NewExpression:
@@ -187,7 +197,9 @@ func Walk(v Visitor, n Node) {
 	case *TryStatement:
 		if n != nil {
 			Walk(v, n.Body)
-			Walk(v, n.Catch)
+			if n.Catch != nil {
+				Walk(v, n.Catch)
+			}
 			Walk(v, n.Finally)
 		}
 	case *UnaryExpression:
